@@ -188,6 +188,11 @@ def run(pid, tier, seed, replay=None):
             # splice missing: the read/write fallback of iv_fd_pump
             import check_c17
             check_c17.run_fallback(tier, seed, sc, rep)
+        if pid == "C04" and not replay:
+            # "never oversleeps / fires exactly once" presupposes an intact timer store: the
+            # lock-step and order runs of the store itself (shared with C05)
+            import check_c05heap
+            check_c05heap.run_heap("quick", seed, sc, rep)
         if pid == "C05" and not replay:
             # the timer store itself: IvTimerHeap model, lock-step and scale runs
             import check_c05heap
